@@ -49,6 +49,9 @@ type e2eStop struct {
 	Phase  string `json:"phase"` // before | after
 	Role   string `json:"role"`  // C | V
 	Delete bool   `json:"delete"`
+	// PromptMs > 0 (client only): the way a user stops -- Ctrl-C pauses the transfer and opens the
+	// prompt (confirmStopTransfer), the stop choice is made PromptMs later, the pause flag still set
+	PromptMs int `json:"prompt_ms,omitempty"`
 }
 
 type e2ePause struct {
@@ -193,6 +196,7 @@ func e2eExec(c *e2eCase, work string, tr *vTrace, logLines bool) (*e2eResult, ma
 	var stopAt, resumedAt time.Time
 	var pauseMu sync.Mutex
 	pauseStarted, pausedNow := false, false
+	stopPlanned := false
 	pData, pKeep, dataAfter, nPauses := 0, 0, 0, 0
 	// steering goroutines that outlive the transfer (pause cycles) record nothing once it is over
 	var overMu sync.Mutex
@@ -244,15 +248,30 @@ func e2eExec(c *e2eCase, work string, tr *vTrace, logLines bool) (*e2eResult, ma
 					})
 				}
 			}
-			if st != nil && m.G == st.G && phase == st.Phase && stopAt.IsZero() {
-				stopAt = time.Now()
-				tr.Emit(map[string]any{"e": "stop", "run": c.ID, "g": m.G, "phase": phase, "role": st.Role, "del": st.Delete}, func() {
-					if st.Role == "C" {
-						f.StopTransferringFiles(st.Delete)
-					} else {
-						server.stopTransferringFiles(false)
+			if st != nil && m.G == st.G && phase == st.Phase && stopAt.IsZero() && !stopPlanned {
+				stopPlanned = true
+				apply := func() {
+					stopAt = time.Now()
+					emitLive(map[string]any{"e": "stop", "run": c.ID, "g": m.G, "phase": phase, "role": st.Role, "del": st.Delete}, func() {
+						if st.Role == "C" {
+							f.StopTransferringFiles(st.Delete)
+						} else {
+							server.stopTransferringFiles(false)
+						}
+					})
+				}
+				if t := client(); st.Role == "C" && st.PromptMs > 0 && t != nil {
+					t.pauseTransferringFiles()
+					if pr := f.progress.Load(); pr != nil {
+						pr.setPause(true)
 					}
-				})
+					go func() {
+						time.Sleep(time.Duration(st.PromptMs) * time.Millisecond)
+						apply()
+					}()
+				} else {
+					apply()
+				}
 			}
 			if pa != nil && m.G == pa.G && phase == pa.Phase && !pauseStarted {
 				if t := client(); t != nil {
